@@ -1,4 +1,4 @@
-import NdnModel.Basic
+import NdnModel.PyDict
 /-
   Model of `ndn/client_conf.py` (`read_client_conf`, its inner `get_path` / `resolve_location`,
   `default_face`, `default_keychain`) over an abstract environment:
@@ -7,8 +7,11 @@ import NdnModel.Basic
     `NdnGen/C20.lean`): ordered candidate paths, default schemes, default store locations, and the
     default transport as a decision table over the probed socket paths;
   * the file system is a predicate `exists : Str → Bool` on the *literal* strings the code passes to
-    `os.path.exists`, and a map path ↦ configuration lines (the subset of the `configparser` grammar
-    without sections, interpolation, continuation lines: comment/blank lines and `key = value`);
+    `os.path.exists`, and a map path ↦ the physical lines of the file (after the universal-newline
+    translation of `open`, without terminators), read by `parseConf`, a model of what
+    `ConfigParser(interpolation=None).read_string('[DEFAULT]\n' + text)` does (`configparser.RawConfigParser._read`):
+    full-line `#`/`;` comments, blank lines, section headers, `=`/`:` delimiters, continuation lines, lower-cased
+    option names, strict duplicate detection, lines that are neither (ParsingError at the end);
   * the process environment is the three optional `NDN_CLIENT_*` values.
 
   Strings are `List Char` (ASCII).  `os.path.expandvars` is the identity on the paths used (no `$`).
@@ -52,11 +55,6 @@ structure Platform where
   tpmScheme : Str
   tpmPaths : List Str
 
-inductive Line where
-  | other                 -- comment or blank line
-  | kv (k v : Str)        -- `k = v` (key as written; configparser lower-cases it)
-  deriving Repr, DecidableEq
-
 structure Env where
   transport : Option Str
   pib : Option Str
@@ -64,7 +62,7 @@ structure Env where
 
 structure World where
   exist : Str → Bool
-  files : Str → List Line
+  files : Str → List Str
   env : Env
 
 structure Conf where
@@ -87,23 +85,137 @@ def defaultTransport (P : Platform) (ex : Str → Bool) : Except PyErr Str :=
 /-- inner `get_path`: first existing candidate, `''` when none exists -/
 def getPath (paths : List Str) (ex : Str → Bool) : Str := (paths.find? ex).getD []
 
-/-- option keys after configparser's `optionxform` -/
-def keysOf : List Line → List Str
-  | [] => []
-  | .other :: r => keysOf r
-  | .kv k _ :: r => lower k :: keysOf r
+/-! ### configparser (`RawConfigParser._read` with the defaults of `ConfigParser(interpolation=None)`:
+    delimiters `=` `:`, comment prefixes `#` `;`, no inline comments, strict, no value-less options,
+    empty lines in values, `optionxform = str.lower`, default section `DEFAULT`)
 
-/-- strict `ConfigParser`: a repeated option raises `DuplicateOptionError` -/
-def hasDup : List Str → Bool
-  | [] => false
-  | k :: r => r.contains k || hasDup r
+    Two passes over the physical lines.  `scan` groups them into logical items - it is the part of the
+    loop that decides, from `optname` and `indent_level`, whether a line is a comment, a blank line, a
+    continuation of the current option, or starts something new.  `interpret` is the part that keeps
+    sections, `elements_added`, the DEFAULT dict and the pending `ParsingError`.  (The real loop does both
+    at once and stops at the first `Duplicate*Error`; which error is raised, and the resulting dict, are
+    the same.)  Exact for ASCII text. -/
+
+/-- `str.isspace` on ASCII -/
+def isWs (c : Char) : Bool := c = ' ' || (9 ≤ c.toNat && c.toNat ≤ 13) || (28 ≤ c.toNat && c.toNat ≤ 31)
+
+def lstrip (s : Str) : Str := s.dropWhile isWs
+def rstrip (s : Str) : Str := (s.reverse.dropWhile isWs).reverse
+def strip (s : Str) : Str := rstrip (lstrip s)
+
+/-- `NONSPACECRE.search(line).start()` -/
+def indentOf (s : Str) : Nat := (s.takeWhile isWs).length
+
+def isDelim (c : Char) : Bool := c = '=' || c = ':'
+
+/-- `line.strip().startswith('#' | ';')` -/
+def isComment (v : Str) : Bool := v.head? = some '#' || v.head? = some ';'
+
+/-- `SECTCRE.match(value)`, `\[(?P<header>.+)\]`: the stripped line starts with `[` and has a `]` after at
+    least one more character; `.+` is greedy, so the name runs up to the *last* `]` (anything after it is
+    ignored) -/
+def header? (v : Str) : Option Str :=
+  match v with
+  | '[' :: r =>
+    match r.reverse.dropWhile (· ≠ ']') with
+    | _ :: revName => if revName = [] then none else some revName.reverse
+    | [] => none
+  | _ => none
+
+/-- `_optcre.match(value)`: option = text before the first delimiter without trailing blanks, value = the
+    rest, stripped; `none` when the line has no delimiter -/
+def splitOpt (v : Str) : Option (Str × Str) :=
+  match v.dropWhile (fun c => !isDelim c) with
+  | [] => none
+  | _ :: val => some (rstrip (v.takeWhile (fun c => !isDelim c)), strip val)
+
+inductive Item where
+  | header (name : Str)
+  | option (key : Str) (pieces : List Str)   -- name as written; first value and the continuation pieces
+  | bogus                                    -- neither a header nor `name <delimiter> value`
+  deriving Repr, DecidableEq
+
+/-- first pass.  `live` = `optname` is truthy (an option with a non-empty name was the last thing started
+    in the current section), `indent` = `indent_level`.  Returns the pieces that continue the option that
+    was current on entry, and the items that start in these lines. -/
+def scan (live : Bool) (indent : Nat) : List Str → List Str × List Item
+  | [] => ([], [])
+  | l :: ls =>
+    let v := strip l
+    if isComment v then scan live indent ls                -- full-line comment: skipped
+    else if v = [] then                                     -- blank: `''` joins the current option's value
+      if live then ([] :: (scan live indent ls).1, (scan live indent ls).2) else scan live indent ls
+    else if live && decide (indent < indentOf l) then       -- continuation line
+      (v :: (scan live indent ls).1, (scan live indent ls).2)
+    else
+      match header? v with
+      | some n => ([], .header n :: (scan false (indentOf l) ls).2)
+      | none =>
+        match splitOpt v with
+        | some (k, val) =>
+          ([], .option k (val :: (scan (decide (k ≠ [])) (indentOf l) ls).1) ::
+                 (scan (decide (k ≠ [])) (indentOf l) ls).2)
+        | none => ((scan live (indentOf l) ls).1, .bogus :: (scan live (indentOf l) ls).2)
+
+inductive ConfErr where
+  | missingSectionHeader | duplicateSection | duplicateOption | parsing
+  deriving Repr, DecidableEq
+
+def ConfErr.name : ConfErr → String
+  | .missingSectionHeader => "MissingSectionHeaderError" | .duplicateSection => "DuplicateSectionError"
+  | .duplicateOption => "DuplicateOptionError" | .parsing => "ParsingError"
+
+def dfltName : Str := "DEFAULT".toList
+
+/-- `_join_multiline_values`: `'\n'.join(pieces).rstrip()` -/
+def joinPieces (ps : List Str) : Str := rstrip (List.intercalate ['\n'] ps)
+
+structure IState where
+  sect : Option Str             -- `sectname` (`none`: no header seen, `cursect is None`)
+  sects : List Str              -- `self._sections`
+  added : List (Str × Str)      -- the (section, option) pairs of `elements_added`
+  dflt : PyDict Str Str         -- `self._defaults`
+  bad : Bool                    -- a ParsingError is pending
+
+/-- second pass, one item -/
+def istep (st : IState) : Item → Except ConfErr IState
+  | .header n =>
+    if n = dfltName then .ok { st with sect := some n }
+    else if st.sects.contains n then .error .duplicateSection
+    else .ok { st with sect := some n, sects := n :: st.sects }
+  | .option k ps =>
+    match st.sect with
+    | none => .error .missingSectionHeader
+    | some s =>
+      if st.added.contains (s, lower k) then .error .duplicateOption
+      else .ok { st with bad := st.bad || decide (k = []), added := (s, lower k) :: st.added,
+                         dflt := if s = dfltName then PyDict.set st.dflt (lower k) (joinPieces ps) else st.dflt }
+  | .bogus =>
+    match st.sect with
+    | none => .error .missingSectionHeader
+    | some _ => .ok { st with bad := true }
+
+def interpret (items : List Item) : Except ConfErr (PyDict Str Str) :=
+  match items.foldlM istep ⟨none, [], [], [], false⟩ with
+  | .error e => .error e
+  | .ok st => if st.bad then .error .parsing else .ok st.dflt
+
+/-- the logical items of `'[DEFAULT]\n' + text` -/
+def logical (lines : List Str) : List Item := (scan false 0 ("[DEFAULT]".toList :: lines)).2
+
+/-- `parser.read_string('[DEFAULT]\n' + text)`; the result is `parser['DEFAULT']` as an ordered dict -/
+def parseConf (lines : List Str) : Except ConfErr (PyDict Str Str) := interpret (logical lines)
+
+def confFails (lines : List Str) : Bool :=
+  match parseConf lines with
+  | .error _ => true
+  | .ok _ => false
 
 /-- `parser['DEFAULT'][key]` (`none` = `KeyError`, which the code swallows) -/
-def fileGet (ls : List Line) (key : Str) : Option Str :=
-  match ls with
-  | [] => none
-  | .other :: r => fileGet r key
-  | .kv k v :: r => if lower k = key then some v else fileGet r key
+def fileGet (lines : List Str) (key : Str) : Option Str :=
+  match parseConf lines with
+  | .ok d => PyDict.get? d key
+  | .error _ => none
 
 def layer (dflt : Str) (file : Option Str) (env : Option Str) : Str :=
   match env with
@@ -139,7 +251,7 @@ def rawConf (P : Platform) (W : World) : Except PyErr (Str × Conf) :=
   | .error e => .error e
   | .ok dt =>
     let ls := if path = [] then [] else W.files path
-    if hasDup (keysOf ls) then .error .other
+    if confFails ls then .error .other        -- DuplicateOptionError / DuplicateSectionError / ParsingError
     else
       let f := fun k => if path = [] then none else fileGet ls k
       .ok (path, { transport := layer dt (f "transport".toList) W.env.transport
